@@ -155,6 +155,29 @@ Fixpoint compile_from (idx : N) (fs : list file) (le : loc) : list entry :=
 Definition loc0 : loc := {| lline := 0; lcol := 0 |}.
 Definition compile (fs : list file) : list entry := compile_from 0 fs loc0.
 
+(* ---------- the order in which the files are compiled ---------- *)
+
+(* parse.go flattenSpecs: a file is added once, when first met, and its imports are then followed in the order of
+   the import statements (depth-first preorder; C05 proves this is what the parser does). g: for every file of the
+   specification (by index) the indices of the files it imports, in textual order. *)
+Fixpoint flatten_from (fuel : nat) (g : list (list N)) (acc : list N) (i : N) : list N :=
+  match fuel with
+  | O => acc
+  | Datatypes.S fuel' =>
+      if mem i acc then acc
+      else fold_left (flatten_from fuel' g) (nth (N.to_nat i) g []) (acc ++ [i])
+  end.
+
+(* the recursion is at most one level deeper than there are files *)
+Definition flatten (g : list (list N)) : list N := flatten_from (Datatypes.S (length g)) g [] 0.
+
+Definition dfile : file := F 0 [] [].
+
+(* the module compiled from a specification given as its files (by index) and its import graph:
+   declaration order = flatten order *)
+Definition compile_spec (fs : list file) (g : list (list N)) : list entry :=
+  compile (map (fun i => nth (N.to_nat i) fs dfile) (flatten g)).
+
 (* every (re)declaration appends its context to the element it names: the contexts of an element, in order *)
 Definition contexts_of (k : N) (es : list entry) : list ctx :=
   map ectx (filter (fun e => N.eqb (ekey e) k) es).
